@@ -303,27 +303,48 @@ def _dump(ctx: Ctx, item):
         shutil.rmtree(tmpdir, ignore_errors=True)
 
 
-def _close_while_disconnected(kind, msgs, path, entries):
+def _close_while_disconnected(kind, msgs, path, entries, who="application"):
     """The gateway goes away (and stays away) after the messages were delivered; the application closes the client while it is
-    DISCONNECTED: the dump holds every delivered message that matches. -> text of the discrepancy or ''"""
+    DISCONNECTED: the dump holds every delivered message that matches. -> text of the discrepancy or ''
+    who: the close() call comes from the application's main task (after the link dropped), from its status callback (when told
+    DISCONNECTED) or from its receive callback (when handed the last message)."""
     import asyncio
     from .. import aio
     if os.path.exists(path):
         os.remove(path)
     s = aio.Session(kind, client_kwargs={"dump_to_file": path, "dump_pgns": list(entries)}, connect_plan=[("accept",), ("refuse",)])
 
+    n_total = len(msgs)
+
     async def main(s):
         c = s.make_client()
+        plain_status, plain_receive = c.status_callback, c.receive_callback
+
+        async def on_status(state):
+            await plain_status(state)
+            if who == "status-callback" and state.name == "DISCONNECTED":
+                s.state_at_close = state.name
+                await c.close()
+
+        async def on_receive(msg):
+            await plain_receive(msg)
+            if who == "receive-callback" and len(s.received) == n_total - 1:
+                s.state_at_close = c.state.name
+                await c.close()
+        c.set_status_callback(on_status)
+        c.set_receive_callback(on_receive)
         await c.connect()
         await asyncio.sleep(0.2)
         for ch in aio.render_messages(kind, msgs):
             s.gw.link.feed(ch)
             await asyncio.sleep(0.01)
         await asyncio.sleep(1.0)
-        s.gw.link.eof()
+        if who != "receive-callback":
+            s.gw.link.eof()
         await asyncio.sleep(3.0)
-        s.state_at_close = c.state.name
-        await c.close()
+        if who == "application":
+            s.state_at_close = c.state.name
+            await c.close()
     if s.run(main) != "ok":
         return f"session ended with {s.outcome}"
     got = [m for _, m in s.received]
@@ -333,7 +354,7 @@ def _close_while_disconnected(kind, msgs, path, entries):
             have = [strict_loads(l) for l in f.read().split("\n") if l]
     except Exception as e:
         return f"dump unreadable: {e}"
-    return "" if have == want and got else f"dump has {len(have)} lines, {len(want)} delivered messages match (client state at close(): {s.state_at_close})"
+    return "" if have == want and got else f"dump has {len(have)} lines, {len(want)} delivered messages match (close() called by the {who}, client state then: {getattr(s, 'state_at_close', None)})"
 
 
 def _clients(ctx: Ctx, item=None):
@@ -346,15 +367,17 @@ def _clients(ctx: Ctx, item=None):
     try:
         for kind in aio.CLIENT_KINDS:
             for label, entries in (("all", []), ("[127250, 'windData']", [127250, "windData"])):
-                for rc in ((), (6,), "closed-while-disconnected"):
+                for rc in ((), (6,), "closed-while-disconnected", "closed-by-status-callback", "closed-by-receive-callback"):
                     path = os.path.join(tmpdir, f"{kind}.jsonl")
-                    if rc == "closed-while-disconnected":
-                        res_ = _close_while_disconnected(kind, msgs, path, entries)
+                    if isinstance(rc, str):
+                        who = {"closed-while-disconnected": "application", "closed-by-status-callback": "status-callback", "closed-by-receive-callback": "receive-callback"}[rc]
+                        res_ = _close_while_disconnected(kind, msgs, path, entries, who)
                         ctx.count()
                         ctx.nontrivial_extra += 1
+                        ctx.klass("client_dump_close_by:" + who)
                         if res_:
-                            ctx.report(f"C15|client-{kind}|dump|closed-while-disconnected", f"{kind} client with dump filter {label}, gateway gone, close(): {res_}",
-                                       {"clientopts": True, "kind": kind, "options": label, "reconnect": "closed-while-disconnected"})
+                            ctx.report(f"C15|client-{kind}|dump|{rc}", f"{kind} client with dump filter {label}, " + ("gateway gone, " if who != "receive-callback" else "") + f"close(): {res_}",
+                                       {"clientopts": True, "kind": kind, "options": label, "reconnect": rc})
                         continue
                     if os.path.exists(path):
                         os.remove(path)
